@@ -118,6 +118,29 @@ pub fn judge(leading: &[Glob], tree: &Option<E>, choices: &[u16]) -> Verdict {
             }
         }
     }
+    // the same parsed tree compiled again with another thread count: the scan call must follow
+    // the options of *this* call (nothing may be remembered from the previous one)
+    let mut other = lipe_find_parser::RunOptions::default();
+    other.threads = match opts.threads {
+        Some(n) => Some(n ^ 1),
+        None => Some(7),
+    };
+    if let Ok(Ok(prog)) = catch(|| compile(&x, &other).map(|c| c.scheme("/"))) {
+        if let Ok(forms) = sx::read_all(&prog) {
+            let mut arg = None;
+            for f in &forms {
+                f.walk(&mut |n| {
+                    if n.head() == Some("lipe-scan") {
+                        arg = n.list().and_then(|l| l.get(5)).cloned();
+                    }
+                });
+            }
+            let want = other.threads.unwrap().to_string();
+            if !matches!(&arg, Some(Sx::Int(_, d)) if *d == want) {
+                return Verdict::Fail(format!("{text:?}: compiled a second time with threads={want}, the scan call carries {arg:?}"));
+            }
+        }
+    }
     Verdict::Pass { nt, class: if in_expr { "option inside the expression" } else { "leading run only" } }
 }
 
